@@ -23,7 +23,8 @@ package zapcore
 import "sync"
 
 type lazyWithCore struct {
-	Core
+	core         Core // set by initOnce; read only after initOnce has returned
+	originalCore Core
 	sync.Once
 	fields []Field
 }
@@ -32,23 +33,40 @@ type lazyWithCore struct {
 // the logger is written to (or is further chained in a lon-lazy manner).
 func NewLazyWith(core Core, fields []Field) Core {
 	return &lazyWithCore{
-		Core:   core,
-		fields: fields,
+		originalCore: core,
+		fields:       fields,
 	}
 }
 
 func (d *lazyWithCore) initOnce() {
 	d.Once.Do(func() {
-		d.Core = d.Core.With(d.fields)
+		d.core = d.originalCore.With(d.fields)
 	})
+}
+
+// Enabled delegates to the original core: With doesn't change which levels
+// are enabled, so there's no need to evaluate the fields (or to race with
+// their evaluation) for a level check.
+func (d *lazyWithCore) Enabled(lvl Level) bool {
+	return d.originalCore.Enabled(lvl)
 }
 
 func (d *lazyWithCore) With(fields []Field) Core {
 	d.initOnce()
-	return d.Core.With(fields)
+	return d.core.With(fields)
 }
 
 func (d *lazyWithCore) Check(e Entry, ce *CheckedEntry) *CheckedEntry {
 	d.initOnce()
-	return d.Core.Check(e, ce)
+	return d.core.Check(e, ce)
+}
+
+func (d *lazyWithCore) Write(e Entry, fields []Field) error {
+	d.initOnce()
+	return d.core.Write(e, fields)
+}
+
+func (d *lazyWithCore) Sync() error {
+	d.initOnce()
+	return d.core.Sync()
 }
